@@ -1,0 +1,77 @@
+//go:build verif
+
+// Contracts for package alert, read by /verif/engine (govc). Comments only.
+package alert
+
+// ---------------------------------------------------------------- topics.go (C09, C05)
+
+//@ spec esLess(a *EventState, b *EventState) bool = a.Level > b.Level || (a.Level == b.Level && a.ID < b.ID)
+//@ spec sortedOK(s []*EventState) bool = forall i int, j int :: 0 <= i && i < j && j < len(s) ==> !esLess(s[j], s[i])
+//@ spec noNil(s []*EventState) bool = forall i int :: 0 <= i && i < len(s) ==> s[i] != nil
+//@ spec topicInv(t *Topic) bool = t != nil && t.events != nil
+//@     && (forall i int :: 0 <= i && i < len(t.sorted) ==> t.sorted[i] != nil && has(t.events, t.sorted[i].ID) && t.events[t.sorted[i].ID] == t.sorted[i])
+//@     && (forall i int, j int :: 0 <= i && i < j && j < len(t.sorted) ==> t.sorted[i] != t.sorted[j])
+//@     && sortedOK(t.sorted)
+//@     && (forall k string :: has(t.events, k) ==> t.events[k] != nil && t.events[k].ID == k)
+//@     && len(t.sorted) == len(t.events)
+
+// The ordering the property states: level descending, then id ascending.
+//@ func (sortedStates).Less
+//@   props C09 C05
+//@   requires 0 <= i && i < len(e) && 0 <= j && j < len(e)
+//@   requires noNil(e)
+//@   pure
+//@   ensures result == esLess(e[i], e[j])
+
+//@ func (sortedStates).Len
+//@   props C09
+//@   pure
+//@   ensures result == len(e)
+
+//@ func (sortedStates).Swap
+//@   props C09 C05
+//@   requires 0 <= i && i < len(e) && 0 <= j && j < len(e)
+//@   modifies elems(e)
+//@   ensures e[i] == old(e[j]) && e[j] == old(e[i])
+//@   ensures forall k int :: 0 <= k && k < len(e) && k != i && k != j ==> e[k] == old(e[k])
+
+// esLess is a strict weak order (what sort.Sort needs from Less).
+//@ lemma esLessIrreflexive props C09: forall l1 int, i1 string :: !(l1 > l1 || (l1 == l1 && i1 < i1))
+//@ lemma esLessTransitive props C09: forall l1 int, i1 string, l2 int, i2 string, l3 int, i3 string ::
+//@     (l1 > l2 || (l1 == l2 && i1 < i2)) && (l2 > l3 || (l2 == l3 && i2 < i3)) ==> (l1 > l3 || (l1 == l3 && i1 < i3))
+//@ lemma esLessIncomparableTransitive props C09: forall l1 int, i1 string, l2 int, i2 string, l3 int, i3 string ::
+//@     !(l1 > l2 || (l1 == l2 && i1 < i2)) && !(l2 > l1 || (l2 == l1 && i2 < i1))
+//@     && !(l2 > l3 || (l2 == l3 && i2 < i3)) && !(l3 > l2 || (l3 == l2 && i3 < i2))
+//@     ==> !(l1 > l3 || (l1 == l3 && i1 < i3)) && !(l3 > l1 || (l3 == l1 && i3 < i1))
+
+// sort.Sort on sortedStates: assumed (trusted) contract of the library function, specialised to
+// this element type: the result is ordered by the *specified* comparator and is a permutation.
+//@ func =sort.Sort@github.com/influxdata/kapacitor/alert.sortedStates
+//@   trusted
+//@   requires noNil(as(data, sortedStates))
+//@   modifies elems(as(data, sortedStates))
+//@   ensures sortedOK(as(data, sortedStates))
+//@   ensures forall i int :: 0 <= i && i < len(as(data, sortedStates)) ==>
+//@       0 <= uf("sortperm", int, callid, i) && uf("sortperm", int, callid, i) < len(as(data, sortedStates))
+//@       && as(data, sortedStates)[i] == old(as(data, sortedStates)[uf("sortperm", int, callid, i)])
+//@   ensures forall i int, j int :: 0 <= i && i < j && j < len(as(data, sortedStates)) ==>
+//@       uf("sortperm", int, callid, i) != uf("sortperm", int, callid, j)
+
+//@ func (*Topic).updateEvent
+//@   props C09 C05
+//@   requires topicInv(t)
+//@   modifies t.sorted, elems(t.sorted), map(t.events), object(t.events[state.ID])
+//@   ensures topicInv(t)
+//@   ensures result1 == old(has(t.events, state.ID))
+//@   ensures result1 ==> result0 == old(*t.events[state.ID])
+//@   ensures has(t.events, state.ID) && *t.events[state.ID] == state
+//@   ensures forall k string :: k != state.ID ==> has(t.events, k) == old(has(t.events, k))
+//@   ensures forall k string :: k != state.ID && has(t.events, k) ==> t.events[k] == old(t.events[k]) && *t.events[k] == old(*t.events[k])
+
+//@ func (*Topic).MaxLevel
+//@   props C09 C05
+//@   requires topicInv(t)
+//@   pure
+//@   ensures forall i int :: 0 <= i && i < len(t.sorted) ==> t.sorted[i].Level <= result
+//@   ensures len(t.sorted) == 0 ==> result == OK
+//@   ensures len(t.sorted) > 0 ==> exists i int :: 0 <= i && i < len(t.sorted) && t.sorted[i].Level == result
